@@ -530,6 +530,10 @@ def run(ctx, chk):
     sub_t = Sub(chk, "C01-c", lambda r: r in ("C17-e/text-pairing", "C17-e/text-codepage", "C17-e/text-trim"))
     rules_c17.text(sub_t, [ctx.crate("zvt_builder"), ctx.crate("zvt")])
     chk.floor("text codec obligations (shared with C17-e)", sub_t.count, 4)
+    # repeated fields: an element is only kept if decoding it consumed input (shared with C12-e)
+    import rules_c12
+    sub_v = Sub(chk, "C01-a", lambda r: r in ("C12-e/vec-item-consumed",))
+    rules_c12.vec_items(ctx, sub_v)
     sub = Sub(chk, "C01-g", lambda r: r.startswith(("C16-b/", "C16-d/", "C16-e/", "C16-f/")))
     rules_c16.run(ctx, sub)
     chk.floor("length-style agreement obligations (shared with C16)", sub.count, 20)
